@@ -116,7 +116,8 @@ type weaver struct {
 	info *types.Info
 
 	mutableFields map[*types.Var]bool // struct fields assigned outside composite literals
-	mutableVars   map[*types.Var]bool // package-level vars assigned after declaration
+	mutableVars   map[*types.Var]bool // package-level / captured vars assigned after declaration
+	captured      map[*types.Var]bool // local variables referenced from a function literal declared after them
 
 	// per file
 	fname    string
@@ -148,6 +149,24 @@ func (w *weaver) prescan() {
 	w.info = w.pkg.TypesInfo
 	w.mutableFields = map[*types.Var]bool{}
 	w.mutableVars = map[*types.Var]bool{}
+	w.captured = map[*types.Var]bool{}
+	for _, f := range w.pkg.Syntax {
+		ast.Inspect(f, func(n ast.Node) bool {
+			lit, ok := n.(*ast.FuncLit)
+			if !ok {
+				return true
+			}
+			ast.Inspect(lit.Body, func(m ast.Node) bool {
+				if id, ok := m.(*ast.Ident); ok {
+					if v, ok := w.info.Uses[id].(*types.Var); ok && !v.IsField() && !isPkgLevel(v) && (v.Pos() < lit.Pos() || v.Pos() > lit.End()) {
+						w.captured[v] = true
+					}
+				}
+				return true
+			})
+			return true
+		})
+	}
 	mark := func(e ast.Expr) {
 		for {
 			switch x := e.(type) {
@@ -163,7 +182,7 @@ func (w *weaver) prescan() {
 					w.mutableVars[v] = true
 				}
 			case *ast.Ident:
-				if v, ok := w.info.Uses[x].(*types.Var); ok && isPkgLevel(v) {
+				if v, ok := w.info.Uses[x].(*types.Var); ok && (isPkgLevel(v) || w.captured[v]) {
 					w.mutableVars[v] = true
 				}
 			case *ast.IndexExpr:
@@ -716,7 +735,7 @@ func (w *weaver) rewriteSelect(sel *ast.SelectStmt) (ast.Stmt, error) {
 		cc := cl.(*ast.CommClause)
 		if cc.Comm == nil {
 			hasDefault = true
-			sw.Body.List = append(sw.Body.List, &ast.CaseClause{List: []ast.Expr{&ast.UnaryExpr{Op: token.SUB, X: &ast.BasicLit{Kind: token.INT, Value: "1"}}}, Body: cc.Body})
+			sw.Body.List = append(sw.Body.List, &ast.CaseClause{List: nil, Body: cc.Body})
 			continue
 		}
 		i := n
@@ -766,6 +785,9 @@ func (w *weaver) rewriteSelect(sel *ast.SelectStmt) (ast.Stmt, error) {
 	hd := "false"
 	if hasDefault {
 		hd = "true"
+	} else {
+		// keeps the switch a terminating statement when every clause terminates (as the select was)
+		sw.Body.List = append(sw.Body.List, &ast.CaseClause{List: nil, Body: []ast.Stmt{&ast.ExprStmt{X: &ast.CallExpr{Fun: ast.NewIdent("panic"), Args: []ast.Expr{lit("zzsimrt: select returned no clause")}}}}})
 	}
 	args := append([]ast.Expr{lit(site), ast.NewIdent(hd)}, cases...)
 	sw.Tag = w.rt("Select", args...)
@@ -945,7 +967,7 @@ func (w *weaver) sharedBase(e ast.Expr) bool {
 	switch x := unparen(e).(type) {
 	case *ast.Ident:
 		if v, ok := w.info.Uses[x].(*types.Var); ok {
-			if isPkgLevel(v) {
+			if isPkgLevel(v) || w.captured[v] {
 				return true
 			}
 			_, isPtr := v.Type().Underlying().(*types.Pointer)
@@ -981,7 +1003,7 @@ func (w *weaver) sharedMapExpr(e ast.Expr) bool {
 	switch x := e.(type) {
 	case *ast.Ident:
 		v, ok := w.info.Uses[x].(*types.Var)
-		return ok && isPkgLevel(v)
+		return ok && (isPkgLevel(v) || w.captured[v])
 	case *ast.SelectorExpr:
 		if s := w.info.Selections[x]; s != nil && s.Kind() == types.FieldVal {
 			return w.sharedBase(x)
@@ -1001,7 +1023,7 @@ func (c *collector) lhs(e ast.Expr, alsoRead bool) {
 	w := c.w
 	switch x := unparen(e).(type) {
 	case *ast.Ident:
-		if v, ok := w.info.Uses[x].(*types.Var); ok && isPkgLevel(v) {
+		if v, ok := w.info.Uses[x].(*types.Var); ok && (isPkgLevel(v) || w.captured[v]) && probeableVar(v) {
 			c.add(access{expr: x, write: true})
 		}
 	case *ast.SelectorExpr:
@@ -1032,6 +1054,18 @@ func (c *collector) lhs(e ast.Expr, alsoRead bool) {
 	_ = alsoRead
 }
 
+// probeableVar: variables whose address may be taken for a probe without changing semantics.
+func probeableVar(v *types.Var) bool {
+	if isSyncType(v.Type()) {
+		return false
+	}
+	switch v.Type().Underlying().(type) {
+	case *types.Signature, *types.Chan:
+		return false
+	}
+	return true
+}
+
 func isSyncType(t types.Type) bool {
 	if p, ok := t.(*types.Pointer); ok {
 		t = p.Elem()
@@ -1059,7 +1093,7 @@ func (c *collector) expr(e ast.Expr) {
 	case *ast.ParenExpr:
 		c.expr(x.X)
 	case *ast.Ident:
-		if v, ok := w.info.Uses[x].(*types.Var); ok && isPkgLevel(v) && w.mutableVars[v] && !isSyncType(v.Type()) {
+		if v, ok := w.info.Uses[x].(*types.Var); ok && (isPkgLevel(v) || w.captured[v]) && w.mutableVars[v] && probeableVar(v) {
 			c.add(access{expr: x})
 		}
 	case *ast.SelectorExpr:
